@@ -160,6 +160,21 @@ func (m *Machine) switchAway(self *Thread, ended bool) {
 			}
 		}
 	}
+	if m.explore && m.daemonsFirst && len(c) > 1 {
+		// goroutines started by the code under test (not by vsym_Go) run eagerly and in a fixed
+		// order as soon as they can: only the harness's own threads are interleaved freely
+		for _, t := range c {
+			if !t.harness && t.id != 0 && t != self {
+				m.cur = t
+				t.wake <- struct{}{}
+				if !ended {
+					m.park(self)
+				}
+				return
+			}
+		}
+		// no daemon is runnable: choose among harness threads (and main) only
+	}
 	if m.explore && len(c) > 1 {
 		if selfRunnable && m.preemptBound > 0 && m.preemptions >= m.preemptBound {
 			// context bound reached: the running thread keeps the processor until it blocks or ends
